@@ -54,6 +54,11 @@ func c09State(r *rand.Rand, kind int) ref.State {
 		for i := range s {
 			s[i] = P - ref.RoundConstant(i)
 		}
+	case 7:
+		// every first-layer sum is p-1: all twelve S-box outputs are p-1 (largest MDS row sums)
+		for i := range s {
+			s[i] = ref.Sub(P-1, ref.RoundConstant(i))
+		}
 	case 6:
 		// some elements one off that point
 		for i := range s {
@@ -153,7 +158,7 @@ func init() {
 				}
 				switch c.Kind {
 				case "perm":
-					s := c09State(r, c.Int("i")%7)
+					s := c09State(r, c.Int("i")%8)
 					want := ref.Poseidon(s)
 					got, res := gadget.EngineEval(engine.Options{Face: faceByName(c.Str("face"))}, poseidonPermGadget, stateIn(s))
 					o.Events += events(res)
@@ -265,11 +270,15 @@ func init() {
 						res0[i] = v
 						vals[i] = bu(v)
 						if c.Kind == "hash" && r.Intn(3) == 0 {
-							k := int64(1 + r.Intn(5))
-							if r.Intn(4) == 0 {
-								k = int64(r.Intn(1 << 30))
+							k := big.NewInt(int64(1 + r.Intn(5)))
+							switch r.Intn(6) {
+							case 0:
+								k = big.NewInt(int64(r.Intn(1 << 30)))
+							case 1:
+								// the hash reduces its inputs first: every multiple the reduction admits
+								k = []*big.Int{new(big.Int).Add(pow2(64), big.NewInt(3)), pow2(100), new(big.Int).Sub(pow2(143), big.NewInt(1)), pow2(63)}[r.Intn(4)]
 							}
-							vals[i] = new(big.Int).Add(vals[i], new(big.Int).Mul(bigP, big.NewInt(k)))
+							vals[i] = new(big.Int).Add(vals[i], new(big.Int).Mul(bigP, k))
 							nonCanon++
 						}
 					}
@@ -565,6 +574,9 @@ func c10Prop() *fw.Prop {
 			reps := 2
 			if !ctx.Quick {
 				reps = 80
+			}
+			for _, n := range []int{63, 64, 65, 135, 189, 190, 191, 192, 193, 194, 200, 256, 257, 400} {
+				cs = append(cs, fw.Case{ID: fmt.Sprintf("hash/%d/long", n), Kind: "hash", P: map[string]any{"n": n, "k": 0}})
 			}
 			for n := 0; n <= 30; n++ {
 				for k := 0; k < reps; k++ {
